@@ -118,7 +118,7 @@ impl Prop for C05 {
         }
     }
     fn rule(&self) -> String {
-        "generated: graph recipe (as C06: chains, balanced tee/merge diamonds, two-source merges, rate changers, HDLC packet stage, 1-2 sinks) x source lengths 0..16k (thorough 30k) x stream sizes 1-4 pages x generated add order x scheduler decision stream. MTGraph::run() executes unmodified; its block threads are coroutines on the shuttle runtime through the verif shim (thread spawn/join/exit, locks, timed waits with generated timeout firing, stream-end drops are scheduling points). Oracle: run() returns Ok and every sink holds exactly the sequence of the sequential reference executor (4 MB streams, topological order); deadlock and non-termination under the fair continuation are violations, budget exhaustion under an unfair prefix is inconclusive. Thorough adds real-thread runs (std primitives, OS scheduling). A second family (15 of 16 cases) are tiny end-of-stream graphs: a source that delivers 1-4 pieces of 1-5 samples on its own clock, 1-2 stages biased to rate changers and blocks asking for more than one sample, one sink (50-200 scheduling steps, so the decision stream covers a useful part of the interleavings around the last commit and the writer's exit). Non-trivial: a sink result larger than the stream capacity and >= 1 pre-emption, or a tiny graph with >= 2 pre-emptions; distinct = hash of (recipe, decisions).".into()
+        "generated: graph recipe (as C06: chains, balanced tee/merge diamonds, two-source merges, rate changers, HDLC packet stage, 1-2 sinks) x source lengths 0..16k (thorough 30k) x stream sizes 1-4 pages x generated add order x scheduler decision stream. MTGraph::run() executes unmodified; its block threads are coroutines on the shuttle runtime through the verif shim (thread spawn/join/exit, locks, timed waits with generated timeout firing, stream-end drops are scheduling points). Oracle: run() returns Ok and every sink holds exactly the sequence of the sequential reference executor (4 MB streams, topological order); deadlock and non-termination under the fair continuation are violations, budget exhaustion under an unfair prefix is inconclusive. Thorough adds real-thread runs (std primitives, OS scheduling). A second family (15 of 16 cases) are tiny end-of-stream graphs: a source that delivers 1-4 pieces of 1-5 samples on its own clock (one case in six: a packet source whose 1-5 packets of up to 2000 samples go through VecToStream into a one-page stream, so that a packet has to wait for room after its writer has left), 0-2 stages biased to rate changers and blocks asking for more than one sample, one sink (50-200 scheduling steps, so the decision stream covers a useful part of the interleavings around the last commit and the writer's exit). Non-trivial: a sink result larger than the stream capacity and >= 1 pre-emption, or a tiny graph with >= 2 pre-emptions; distinct = hash of (recipe, decisions).".into()
     }
     fn assumptions(&self) -> Vec<String> {
         vec![
